@@ -699,7 +699,7 @@ def rule_r4(ctx):
         in_hook = any("producer()" in norm(n.test) for n in own_nodes(hook.node) if isinstance(n, ast.If) and _rejects(n))
         if not in_hook:
             # the hook may start by running a side-effect-free checker that holds the test
-            first = next((s for s in hook.node.body if not (isinstance(s, ast.Expr) and isinstance(s.value, ast.Constant))), None)
+            first = next((s for s in hook.node.body if not FuncInfo._trivial(s)), None)
             if isinstance(first, ast.Expr) and isinstance(first.value, ast.Call) and isinstance(first.value.func, ast.Attribute) \
                     and norm(first.value.func.value) == "self" and [norm(a) for a in first.value.args] == [hook.params[1]]:
                 chk = repo.lookup(c, first.value.func.attr)
